@@ -25,8 +25,11 @@ def value_term(v, sort=False, subs=None):
         qual, kind = subs[t]
         base = {'list': list, 'tuple': tuple, 'set': set, 'frozenset': frozenset, 'dict': dict, 'str': str,
                 'bytes': bytes, 'int': int, 'float': float}[kind]
-        if kind in ('int', 'float', 'str', 'bytes'):
-            inner = base.__new__(base, v) if kind in ('int', 'float') else base(v)
+        if kind in ('int', 'float'):
+            inner = base.__new__(base, v)
+        elif kind in ('str', 'bytes'):
+            inner = base.__getitem__(v, slice(None))    # exact str/bytes, bypassing __str__
+            assert type(inner) is base
         elif kind == 'dict':
             inner = dict(v.items())
         else:
@@ -206,3 +209,29 @@ def typed_equal(a, b, sort=False):
                 return False
         return True
     return a == b
+
+
+def typed_equal_sub(a, b, subs):
+    """typed_equal extended to instances of known subclasses of built-in types."""
+    if type(a) is not type(b):
+        return False
+    t = type(a)
+    if t in subs:
+        kind = subs[t][1]
+        base = {'list': list, 'tuple': tuple, 'set': set, 'frozenset': frozenset, 'dict': dict, 'str': str,
+                'bytes': bytes, 'int': int, 'float': float}[kind]
+        if kind in ('int', 'float'):
+            return typed_equal(base.__new__(base, a), base.__new__(base, b))
+        if kind == 'dict':
+            return typed_equal_sub(dict(a.items()), dict(b.items()), subs)
+        if kind in ('str', 'bytes'):
+            return base.__getitem__(a, slice(None)) == base.__getitem__(b, slice(None))
+        return typed_equal_sub(base(a), base(b), subs)
+    if isinstance(a, (list, tuple)):
+        return len(a) == len(b) and all(typed_equal_sub(x, y, subs) for x, y in zip(a, b))
+    if isinstance(a, dict):
+        return len(a) == len(b) and all(typed_equal_sub(k1, k2, subs) and typed_equal_sub(a[k1], b[k2], subs)
+                                        for k1, k2 in zip(a.keys(), b.keys()))
+    if isinstance(a, (set, frozenset)):
+        return len(a) == len(b) and all(any(typed_equal_sub(x, y, subs) for y in b) for x in a)
+    return typed_equal(a, b)
